@@ -7,7 +7,7 @@
    defined, no empty disjunction), check = Accept <-> conforms.  One class of the pinned code is
    left open as a known finding (a unit test of the library pins it): dictionary / stream entries
    whose check has type Any are skipped, predicate and indirection requirement included. *)
-From PV Require Import Spec.Conforms Proofs.TypeCheckWitness.
+From PV Require Import Spec.Conforms Proofs.TypeCheckWitness Proofs.TypeCheckSim Proofs.TypeCheckRec Proofs.TypeCheckSound Proofs.TypeCheckNorm.
 
 Theorem C08_refuted : ~ C08_statement.
 Proof. exact C08_statement_false. Qed.
@@ -42,6 +42,90 @@ Proof. exact fixed_stale_index. Qed.
 Theorem C08_fixed_undefined_required : agrees [] [] (ORef 9 0) (CRep (TPrim PNull) None IReq) true.
 Proof. exact fixed_undefined_required. Qed.
 
+
+(* ================= the theorems =================
+   [check] = Model/TypeCheck.v (check_type: resolve the root, normalise it, run the work loop);
+   [conforms] = the declarative reading (greatest fixed point), [conforms_skip] = the same reading with
+   dictionary / stream / '*' entries of type Any not checked (the known finding);
+   [wf_univ tc c] (computable): every name mentioned anywhere in the normalised specification is
+   defined and no disjunction is empty;
+   [no_any_entry_attrs tc c] (computable): no entry check resolving to type Any carries a predicate
+   or a non-Allowed indirect specification. *)
+
+(* layer (i): the work-list machine computes what the recursive memoising checker computes *)
+Theorem C08_layer_i_machine_refines_recursive_checker : forall opq oc tc o c r,
+  resolve tc c = Some r ->
+  let c' := norm_chk (rep_chk r) in
+  verdict_of (eval_root opq oc tc (step_bound oc tc o c') o c') (fst (check opq oc tc o c)).
+Proof. exact check_eval. Qed.
+
+(* layer (ii): the answers of the recursive checker are genuine *)
+Theorem C08_layer_ii_ok : forall opq oc tc n o c ex' fl',
+  eval_root opq oc tc n o c = EOk ex' fl' -> conforms_skip opq oc tc o c.
+Proof. exact eval_root_ok. Qed.
+Theorem C08_layer_ii_fail : forall opq oc tc n o c ex' fl',
+  eval_root opq oc tc n o c = EFail ex' fl' -> ~ conforms_skip opq oc tc o c.
+Proof. exact eval_root_fail. Qed.
+
+(* every specification, every object graph: an accepted object conforms, a rejected one does not *)
+Theorem C08_accept_sound : forall opq oc tc o c r,
+  resolve tc c = Some r -> fst (check opq oc tc o c) = Accept ->
+  conforms_skip opq oc tc o (norm_chk (rep_chk r)).
+Proof. exact check_accept_conforms. Qed.
+Theorem C08_reject_sound : forall opq oc tc o c r e,
+  resolve tc c = Some r -> fst (check opq oc tc o c) = Reject e ->
+  ~ conforms_skip opq oc tc o (norm_chk (rep_chk r)).
+Proof. exact check_reject_nonconforms. Qed.
+
+(* the checker reports no error exactly when the object conforms in the reading the library
+   implements: every well-formed specification, every object graph *)
+Theorem C08_except_known : forall opq oc tc o c r,
+  resolve tc c = Some r -> wf_univ tc (norm_chk (rep_chk r)) = true ->
+  (fst (check opq oc tc o c) = Accept <-> conforms_skip opq oc tc o (norm_chk (rep_chk r))).
+Proof. exact check_accept_iff_conforms_skip. Qed.
+
+(* the full statement outside the known finding *)
+Theorem C08_full_outside_known_finding : forall opq oc tc o c r,
+  resolve tc c = Some r -> wf_univ tc (norm_chk (rep_chk r)) = true ->
+  no_any_entry_attrs tc (norm_chk (rep_chk r)) = true ->
+  (fst (check opq oc tc o c) = Accept <-> conforms opq oc tc o (norm_chk (rep_chk r))).
+Proof. exact check_accept_iff_conforms. Qed.
+
+(* acceptance never depends on the skipped entries: a conforming object is accepted *)
+Theorem C08_conforming_accepted : forall opq oc tc o c r,
+  resolve tc c = Some r -> wf_univ tc (norm_chk (rep_chk r)) = true ->
+  conforms opq oc tc o (norm_chk (rep_chk r)) -> fst (check opq oc tc o c) = Accept.
+Proof. exact conforms_check_accept. Qed.
+
+(* on a well-formed specification the verdict is Accept or Reject *)
+Theorem C08_verdict_wf : forall opq oc tc o c r,
+  resolve tc c = Some r -> wf_univ tc (norm_chk (rep_chk r)) = true ->
+  fst (check opq oc tc o c) = Accept \/ exists e, fst (check opq oc tc o c) = Reject e.
+Proof. exact check_verdict_wf. Qed.
+
+
+(* normalize_check (flattening of attribute-free nested disjunctions) does not change what conforms *)
+Theorem C08_normalize_preserves_conformance : forall opq oc tc sk o c,
+  conforms_gen opq oc tc sk o (norm_chk c) <-> conforms_gen opq oc tc sk o c.
+Proof. exact conforms_norm. Qed.
+
+(* hence the theorems speak about the specification as written *)
+Theorem C08_except_known_as_written : forall opq oc tc o c r,
+  resolve tc c = Some r -> wf_univ tc (norm_chk (rep_chk r)) = true ->
+  (fst (check opq oc tc o c) = Accept <-> conforms_skip opq oc tc o c).
+Proof. exact check_accept_iff_conforms_skip_written. Qed.
+Theorem C08_full_outside_known_finding_as_written : forall opq oc tc o c r,
+  resolve tc c = Some r -> wf_univ tc (norm_chk (rep_chk r)) = true ->
+  no_any_entry_attrs tc (norm_chk (rep_chk r)) = true ->
+  (fst (check opq oc tc o c) = Accept <-> conforms opq oc tc o c).
+Proof. exact check_accept_iff_conforms_written. Qed.
+
+(* the hypotheses are satisfiable *)
+Example C08_hypotheses_satisfiable :
+  wf_univ w8_tc (norm_chk w8_c) = true /\ no_any_entry_attrs w8_tc (norm_chk w8_c) = true /\
+  wf_univ [] (norm_chk w5_c) = true /\ no_any_entry_attrs [] (norm_chk w5_c) = false.
+Proof. vm_compute. repeat split. Qed.
+
 Print Assumptions C08_refuted.
 Print Assumptions C08_refuted_any_entry.
 Print Assumptions C08_refuted_any_entry_stream.
@@ -56,3 +140,15 @@ Print Assumptions C08_fixed_examined_alternative.
 Print Assumptions C08_fixed_named_disjunct.
 Print Assumptions C08_fixed_stale_index.
 Print Assumptions C08_fixed_undefined_required.
+Print Assumptions C08_layer_i_machine_refines_recursive_checker.
+Print Assumptions C08_layer_ii_ok.
+Print Assumptions C08_layer_ii_fail.
+Print Assumptions C08_accept_sound.
+Print Assumptions C08_reject_sound.
+Print Assumptions C08_except_known.
+Print Assumptions C08_full_outside_known_finding.
+Print Assumptions C08_conforming_accepted.
+Print Assumptions C08_verdict_wf.
+Print Assumptions C08_normalize_preserves_conformance.
+Print Assumptions C08_except_known_as_written.
+Print Assumptions C08_full_outside_known_finding_as_written.
